@@ -48,12 +48,26 @@ def go_env():
 
 
 def build_driver(race=False):
-    """(Re)build the Go driver against /repo's current working tree."""
-    os.makedirs(BUILD, exist_ok=True)
+    """(Re)build the Go driver against the repository's current working tree (/repo, or
+    $VERIF_REPO for experiments on a scratch worktree: a separate mod file and build directory)."""
     h = os.path.join(VERIF, "harness")
-    shutil.copyfile(os.path.join(REPO, "go.sum"), os.path.join(h, "go.sum"))
-    out = os.path.join(BUILD, "driver-race" if race else "driver")
-    cmd = ["go", "build"] + (["-race"] if race else []) + ["-tags", "verif", "-o", out, "./cmd/driver"]
+    name = "driver-race" if race else "driver"
+    if REPO == "/repo":
+        os.makedirs(BUILD, exist_ok=True)
+        shutil.copyfile(os.path.join(REPO, "go.sum"), os.path.join(h, "go.sum"))
+        out = os.path.join(BUILD, name)
+        modflag = []
+    else:
+        tag = hashlib.sha1(REPO.encode()).hexdigest()[:10]
+        bdir = os.path.join(BUILD, "alt-" + tag)
+        os.makedirs(bdir, exist_ok=True)
+        mod = open(os.path.join(h, "go.mod")).read().replace("=> /repo", "=> " + REPO)
+        with open(os.path.join(bdir, "go.mod"), "w") as fh:
+            fh.write(mod)
+        shutil.copyfile(os.path.join(REPO, "go.sum"), os.path.join(bdir, "go.sum"))
+        out = os.path.join(bdir, name)
+        modflag = ["-modfile=" + os.path.join(bdir, "go.mod")]
+    cmd = ["go", "build"] + modflag + (["-race"] if race else []) + ["-tags", "verif", "-o", out, "./cmd/driver"]
     p = subprocess.run(cmd, cwd=h, env=go_env(), capture_output=True, text=True)
     if p.returncode != 0:
         raise Infra("go build failed:\n" + p.stdout + p.stderr)
@@ -240,12 +254,12 @@ def canon(ev):
 
 
 def write_replay(pid, family, case, event, dev, extra=None):
-    os.makedirs(os.path.join(VERIF, "replays"), exist_ok=True)
+    os.makedirs(os.path.join(out_root(), "replays"), exist_ok=True)
     body = dict(property=pid, family=family, case=case, event=event, deviation=dev)
     if extra:
         body.update(extra)
     h = hashlib.sha1(canon(dict(case=case, dev=dev)).encode()).hexdigest()[:12]
-    path = os.path.join(VERIF, "replays", "%s-%s.json" % (pid, h))
+    path = os.path.join(out_root(), "replays", "%s-%s.json" % (pid, h))
     with open(path, "w") as fh:
         json.dump(body, fh, indent=1)
     return path
@@ -270,11 +284,16 @@ def judge_single(scr, trace_module, cfg, event):
     return [(pr, dv) for (_, pr, dv) in r["rejs"]]
 
 
+def out_root():
+    """evidence/ and replays/ live in /verif for /repo; experiments on another tree write under $VERIF_OUT"""
+    return os.environ.get("VERIF_OUT") or (VERIF if REPO == "/repo" else tempfile.gettempdir())
+
+
 def write_evidence(pid, tier, seed, level, coverage, assumptions, wall, violations):
-    os.makedirs(os.path.join(VERIF, "evidence"), exist_ok=True)
+    os.makedirs(os.path.join(out_root(), "evidence"), exist_ok=True)
     ev = dict(property_id=pid, tier=tier, seed=seed, level=level, coverage=coverage,
               assumptions=assumptions, wall_s=round(wall, 1), violations=violations)
-    with open(os.path.join(VERIF, "evidence", pid + ".json"), "w") as fh:
+    with open(os.path.join(out_root(), "evidence", pid + ".json"), "w") as fh:
         json.dump(ev, fh, indent=1)
 
 
